@@ -1,33 +1,75 @@
 package sym
 
-// Rune-vector strings (C19): code points are Int terms, the length is concrete.
+// Vector strings: symbolic strings of CONCRETE length whose elements are Int terms.
+// bytes=true : elements are bytes, all Go string operations have exact byte semantics (C18, slots).
+// bytes=false: elements are code points (C19); byte-length-dependent operations are refused.
 
 import (
 	"fmt"
 	"unicode/utf8"
 )
 
-func toRunes(v value) runesV {
+func vecOf(v value, bytesMode bool) runesV {
 	switch x := v.(type) {
 	case runesV:
-		return x
+		if x.bytes != bytesMode && len(x.cps) > 0 {
+			panic(unsupported("mixing byte-vector and rune-vector strings"))
+		}
+		return runesV{x.cps, bytesMode}
 	case string:
 		var cps []*Term
-		for _, c := range x {
-			cps = append(cps, IntT(int64(c)))
+		if bytesMode {
+			for i := 0; i < len(x); i++ {
+				cps = append(cps, IntT(int64(x[i])))
+			}
+		} else {
+			for _, c := range x {
+				cps = append(cps, IntT(int64(c)))
+			}
 		}
-		return runesV{cps}
+		return runesV{cps, bytesMode}
+	case uint8:
+		return runesV{[]*Term{IntT(int64(x))}, bytesMode}
 	}
-	panic(unsupported(fmt.Sprintf("toRunes(%T)", v)))
+	panic(unsupported(fmt.Sprintf("vector string from %T", v)))
 }
 
-func runesConcat(a, b runesV) value {
-	out := runesV{append(append([]*Term(nil), a.cps...), b.cps...)}
+func toRunes(v value) runesV {
+	if x, ok := v.(runesV); ok {
+		return x
+	}
+	return vecOf(v, false)
+}
+
+func vecMode(a, b value) bool {
+	if x, ok := a.(runesV); ok {
+		return x.bytes
+	}
+	if x, ok := b.(runesV); ok {
+		return x.bytes
+	}
+	return false
+}
+
+func runesConcat(a, b value) value {
+	m := vecMode(a, b)
+	x, y := vecOf(a, m), vecOf(b, m)
+	out := runesV{append(append([]*Term(nil), x.cps...), y.cps...), m}
 	return out.norm()
 }
 
 // norm turns an all-constant vector back into a Go string.
 func (rv runesV) norm() value {
+	if rv.bytes {
+		buf := make([]byte, 0, len(rv.cps))
+		for _, c := range rv.cps {
+			if !c.IsConst() {
+				return rv
+			}
+			buf = append(buf, byte(c.I))
+		}
+		return string(buf)
+	}
 	buf := make([]rune, 0, len(rv.cps))
 	for _, c := range rv.cps {
 		if !c.IsConst() {
@@ -44,10 +86,10 @@ func runesEq(a runesV, y value) *Term {
 	case runesV:
 		b = yv
 	case string:
-		if !utf8.ValidString(yv) {
+		if !a.bytes && !utf8.ValidString(yv) {
 			return TFalse
 		}
-		b = toRunes(yv)
+		b = vecOf(yv, a.bytes)
 	case *Term:
 		return Eq(runesToStr(a), yv)
 	default:
@@ -69,4 +111,60 @@ func runesToStr(a runesV) *Term {
 		parts = append(parts, FromCode(c))
 	}
 	return Concat(parts...)
+}
+
+// ---- byte-vector implementations of the strings functions
+
+func (r *Run) vecHasPrefix(s, p runesV) value {
+	if len(p.cps) > len(s.cps) {
+		return false
+	}
+	return simplifyBool(runesEq(runesV{s.cps[:len(p.cps)], s.bytes}, p))
+}
+func (r *Run) vecHasSuffix(s, p runesV) value {
+	if len(p.cps) > len(s.cps) {
+		return false
+	}
+	return simplifyBool(runesEq(runesV{s.cps[len(s.cps)-len(p.cps):], s.bytes}, p))
+}
+func (r *Run) vecMatchAt(s, p runesV, i int) *Term {
+	return runesEq(runesV{s.cps[i : i+len(p.cps)], s.bytes}, p)
+}
+func (r *Run) vecContains(s, p runesV) value {
+	var alts []*Term
+	for i := 0; i+len(p.cps) <= len(s.cps); i++ {
+		alts = append(alts, r.vecMatchAt(s, p, i))
+	}
+	return simplifyBool(Or(alts...))
+}
+
+// vecIndex forks over the position of the first (or last) occurrence; -1 if none.
+func (r *Run) vecIndex(s, p runesV, last bool) int {
+	n := len(s.cps) - len(p.cps)
+	if n < 0 {
+		return -1
+	}
+	if last {
+		for i := n; i >= 0; i-- {
+			if r.branch(simplifyBool(r.vecMatchAt(s, p, i))) {
+				return i
+			}
+		}
+		return -1
+	}
+	for i := 0; i <= n; i++ {
+		if r.branch(simplifyBool(r.vecMatchAt(s, p, i))) {
+			return i
+		}
+	}
+	return -1
+}
+
+func isVec(args ...value) bool {
+	for _, a := range args {
+		if _, ok := a.(runesV); ok {
+			return true
+		}
+	}
+	return false
 }
